@@ -16,7 +16,14 @@ import json, os, re, subprocess, sys, time, hashlib, shutil
 ROOT = os.path.dirname(os.path.dirname(os.path.abspath(__file__)))
 LEAN = os.path.join(ROOT, "lean")
 HARN = os.path.join(ROOT, "harness")
-WORK = os.path.join(ROOT, "work")
+# Scratch mode (used only for experiments with seeded changes in a scratch copy of the crate, never by a
+# registered command): VERIF_SCRATCH=<dir> puts work/, evidence/, replays/ under <dir> and uses <dir>/harness
+# (a copy of harness/ whose path dependency points at the scratch crate); VERIF_SKIP_LEAN=1 skips step 1.
+SCRATCH = os.environ.get("VERIF_SCRATCH")
+OUTROOT = SCRATCH if SCRATCH else ROOT
+if SCRATCH and os.path.isdir(os.path.join(SCRATCH, "harness")):
+    HARN = os.path.join(SCRATCH, "harness")
+WORK = os.path.join(OUTROOT, "work")
 DRIVER = os.path.join(LEAN, ".lake", "build", "bin", "ubidi-driver")
 ALLOWED_AXIOMS = {"propext", "Classical.choice", "Quot.sound"}
 FORBIDDEN = ["sorry", "admit", "native_decide", "bv_decide", "implemented_by", "unsafe ", "maxHeartbeats 0"]
@@ -90,7 +97,7 @@ def theorem_names(path):
     if not os.path.exists(path):
         return []
     src = strip_lean_comments(open(path, encoding="utf-8").read())
-    return re.findall(r"^\s*theorem\s+([A-Za-z_][A-Za-z0-9_'.]*)", src, re.M)
+    return re.findall(r"^\s*theorem\s+([^\s:({\[]+)", src, re.M)
 
 
 def lean_obligations(prop, log):
@@ -134,7 +141,7 @@ def lean_obligations(prop, log):
         rc, out = sh(["lake", "env", "lean", audit], cwd=LEAN, timeout=1200)
         cur = None
         text = out.replace("\n  ", " ")
-        for m in re.finditer(r"'UBidi\.Props\.%s\.([^']+)' (depends on axioms: \[([^\]]*)\]|does not depend on any axioms)" % prop, text):
+        for m in re.finditer(r"'UBidi\.Props\.%s\.(\S+?)' (depends on axioms: \[([^\]]*)\]|does not depend on any axioms)" % prop, text):
             axs = [a.strip() for a in (m.group(3) or "").split(",") if a.strip()]
             axioms[m.group(1)] = axs
         for n in names:
@@ -267,13 +274,17 @@ def main():
     t_start = time.time()
     log = []
     os.makedirs(WORK, exist_ok=True)
-    os.makedirs(os.path.join(ROOT, "evidence"), exist_ok=True)
-    os.makedirs(os.path.join(ROOT, "replays"), exist_ok=True)
+    os.makedirs(os.path.join(OUTROOT, "evidence"), exist_ok=True)
+    os.makedirs(os.path.join(OUTROOT, "replays"), exist_ok=True)
 
-    names, axioms, obligations, discharged, broken = lean_obligations(prop, log)
+    if os.environ.get("VERIF_SKIP_LEAN") == "1" and SCRATCH:
+        names, axioms, obligations, discharged, broken = [], {}, 1, 1, []
+        log.append("scratch mode: Lean obligations skipped")
+    else:
+        names, axioms, obligations, discharged, broken = lean_obligations(prop, log)
     if not os.path.exists(DRIVER):
         print("run_check: driver missing; lake build failed:\n" + "\n".join(broken))
-    relevant_spec = set(["S:" + prop] + cfg.get("spec_extra", []))
+    relevant_spec = set(["S:" + prop, "S:PANIC"] + cfg.get("spec_extra", []))
     relevant_model = set(cfg["model"])
 
     results = []
@@ -329,7 +340,7 @@ def main():
     replay_paths = []
 
     def write_replay(name, content):
-        path = os.path.join(ROOT, "replays", name)
+        path = os.path.join(OUTROOT, "replays", name)
         open(path, "w").write(content)
         return path
 
@@ -453,7 +464,7 @@ def main():
         "wall_s": round(wall, 2),
         "violations": len(violations),
     }
-    json.dump(ev, open(os.path.join(ROOT, "evidence", prop + ".json"), "w"), indent=1)
+    json.dump(ev, open(os.path.join(OUTROOT, "evidence", prop + ".json"), "w"), indent=1)
 
     for l in sorted(set(known_lines)):
         print(l)
